@@ -57,6 +57,7 @@ def fix_case(c):
     """ToJson renders an empty sequence as [] and sets as arrays; normalise"""
     c = dict(c)
     c["chain"] = list(c.get("chain") or [])
+    c["mods"] = list(c.get("mods") or [])
     c["nest"] = list(c.get("nest") or [])
     c["fams"] = sorted(c["fams"])
     return c
